@@ -6,6 +6,13 @@
 // bookkeeping counters. Everything that mutates shared state through `&self` (DashMap, atomics, Mutex, channels) is
 // OUTSIDE: it appears below as assumed `external_body` functions whose results are uninterpreted functions of `&self`
 // ("the value this call happened to read"); no obligation here says anything about interleavings.
+// The public FRONT END of the concurrent cache (src/sync/cache.rs: policy, entry_count, weighted_size, contains_key, get,
+// insert, insert_with_hash, invalidate, invalidate_all, schedule_write_op) and the BaseCache delegations are under contract for
+// WHAT THEY HAND ON: a lookup answers exactly what the lookup composition answers; an insert queues exactly the `Upsert` record
+// the map update produced (same key, hash, value); an invalidate that took an entry out of the map queues its `Remove` record;
+// schedule_write_op returns only after exactly the record it was given is in the queue (its busy-wait has no variant:
+// termination unchecked, C09 not applicable). The map update itself (`do_insert_with_hash`: DashMap entry API with closures
+// capturing `&mut`) and the channel are assumed.
 use vstd::prelude::*;
 verus! {
 pub mod env {
@@ -118,13 +125,40 @@ pub enum ReadOp<K, V> {
     Hit(u64, TrioArc<ValueEntry<K, V>>, Instant),
     Miss(u64),
 }
-#[verifier::external_body]
+/// crossbeam_channel::TrySendError
 #[verifier::reject_recursive_types(T)]
-pub struct TrySendError<T> { p: std::marker::PhantomData<T> }
+pub enum TrySendError<T> { Full(T), Disconnected(T) }
 impl<T> std::fmt::Debug for TrySendError<T> {
     #[verifier::external_body]
     fn fmt(&self, f: &mut std::fmt::Formatter<'_>) -> std::fmt::Result { unimplemented!() }
 }
+/// crossbeam_channel::Sender, shared through `&self`: `sp_sent(x)` = "this call has put record x into the channel". ASSUMED:
+/// a full channel hands the record back unchanged; the channel is never disconnected while the cache lives (the receiving end
+/// is a field of `Inner`, which every handle keeps alive through an `Arc`).
+#[verifier::external_body]
+#[verifier::reject_recursive_types(T)]
+pub struct Sender<T> { p: std::marker::PhantomData<T> }
+impl<T> Sender<T> {
+    pub uninterp spec fn sp_sent(&self, x: T) -> bool;
+    #[verifier::external_body]
+    pub fn try_send(&self, msg: T) -> (r: Result<(), TrySendError<T>>)
+        ensures match r { Ok(_) => self.sp_sent(msg), Err(TrySendError::Full(m)) => m == msg, Err(TrySendError::Disconnected(_)) => false }
+    { unimplemented!() }
+}
+/// std's default hasher state: opaque
+#[verifier::external_body]
+pub struct RandomState { x: u64 }
+/// src/common/concurrent/housekeeper.rs (atomics): opaque
+#[verifier::external_body]
+pub struct Housekeeper { x: u64 }
+pub assume_specification [std::thread::sleep] (dur: Duration);
+pub assume_specification [Duration::from_micros] (micros: u64) -> Duration;
+pub uninterp spec fn arc_reads<T: std::marker::MetaSized + ?Sized, A: std::alloc::Allocator>(a: &std::sync::Arc<T, A>, r: &T) -> bool;
+pub assume_specification<T, A> [<std::sync::Arc<T, A> as std::convert::AsRef<T>>::as_ref] (a: &std::sync::Arc<T, A>) -> (r: &T)
+    where A: std::alloc::Allocator, T: std::marker::MetaSized + ?Sized
+    ensures arc_reads(a, r);
+pub broadcast axiom fn axiom_arc_reads<T>(a: &Arc<T>, r: &T)
+    ensures #[trigger] arc_reads(a, r) ==> *r == **a;
 
 #[verifier::external_body]
 pub struct Policy { x: u64 }
@@ -149,7 +183,7 @@ use std::sync::Arc;
 use std::borrow::Borrow;
 use std::hash::{BuildHasher, Hash};
 use super::env::*;
-broadcast use {axiom_dur_nonneg};
+broadcast use {axiom_dur_nonneg, axiom_arc_reads};
 
 /// C05 / C07 (concurrent cache), from the property statements: hidden iff written STRICTLY before the invalidate_all
 /// watermark, or the time-to-live has elapsed
@@ -305,6 +339,25 @@ impl<K, V, S> Inner<K, V, S> {
     #[verifier::external_body]
     pub fn current_time_from_expiration_clock(&self) -> (r: Instant) ensures r == self.sp_now() { unimplemented!() }
 //@@ END
+    /// counters published by the last maintenance run (`AtomicCell` loads): the value this call reads
+    pub uninterp spec fn sp_entry_count(&self) -> u64;
+    pub uninterp spec fn sp_weighted_size(&self) -> u64;
+//@@ SIG file=src/sync/base_cache.rs owner=Inner name=entry_count
+    #[verifier::external_body]
+    pub fn entry_count(&self) -> (r: u64) ensures r == self.sp_entry_count() { unimplemented!() }
+//@@ END
+//@@ SIG file=src/sync/base_cache.rs owner=Inner name=weighted_size
+    #[verifier::external_body]
+    pub fn weighted_size(&self) -> (r: u64) ensures r == self.sp_weighted_size() { unimplemented!() }
+//@@ END
+    /// DashMap::remove through `&self`: hands out the binding this call found under the key (the one `sp_get` names), if any
+//@@ SIG file=src/sync/base_cache.rs owner=Inner name=remove_entry
+    #[verifier::external_body]
+    pub fn remove_entry<Q>(&self, key: &Q) -> (r: Option<KvEntry<K, V>>)
+    where Arc<K>: Borrow<Q>, Q: Hash + Eq + ?Sized
+        ensures match r { Some(kv) => self.sp_get(kid(key)) == Some(kv.entry) && kid::<K>(&*kv.key) == kid(key), None => self.sp_get(kid(key)).is_none() }
+    { unimplemented!() }
+//@@ END
     /// C07: the watermark handed to the shared cell must be this call's clock reading
 //@@ SIG file=src/sync/base_cache.rs owner=Inner name=set_valid_after
     #[verifier::external_body]
@@ -380,9 +433,119 @@ impl<K, V, S> Inner<K, V, S> {
 #[verifier::reject_recursive_types(S)]
 pub struct BaseCache<K, V, S> {
     pub inner: Arc<Inner<K, V, S>>,
+    pub write_op_ch: Sender<WriteOp<K, V>>,
+    pub housekeeper: Option<Arc<Housekeeper>>,
+}
+
+// ---------------- the records of the write queue (src/common/concurrent.rs) ----------------
+//@@ STRUCT file=src/common/concurrent.rs name=KeyHash
+#[verifier::reject_recursive_types(K)]
+pub struct KeyHash<K> {
+    pub key: Arc<K>,
+    pub hash: u64,
+}
+//@@ END
+//@@ STRUCT file=src/common/concurrent.rs name=KvEntry
+#[verifier::reject_recursive_types(K)]
+#[verifier::reject_recursive_types(V)]
+pub struct KvEntry<K, V> {
+    pub key: Arc<K>,
+    pub entry: TrioArc<ValueEntry<K, V>>,
+}
+//@@ END
+//@@ ENUM file=src/common/concurrent.rs name=WriteOp
+#[verifier::reject_recursive_types(K)]
+#[verifier::reject_recursive_types(V)]
+pub enum WriteOp<K, V> {
+    Upsert {
+        key_hash: KeyHash<K>,
+        value_entry: TrioArc<ValueEntry<K, V>>,
+        old_weight: u32,
+        new_weight: u32,
+    },
+    Remove(KvEntry<K, V>),
+}
+//@@ END
+//@@ CONST file=src/common/concurrent/constants.rs name=WRITE_RETRY_INTERVAL_MICROS
+pub trait InnerSync {
+    fn sync(&self, max_sync_repeats: usize);
+    fn now(&self) -> Instant;
+}
+impl<K, V, S> InnerSync for Inner<K, V, S> {
+    #[verifier::external_body]
+    fn sync(&self, max_sync_repeats: usize) { unimplemented!() }
+    #[verifier::external_body]
+    fn now(&self) -> Instant { unimplemented!() }
 }
 
 impl<K, V, S> BaseCache<K, V, S> {
+    // ---- assumed: hasher, the map update of an insert (closures capturing `&mut`: rejected by Verus), the housekeeper hook ----
+    pub uninterp spec fn sp_hash<Q: ?Sized>(&self, key: &Q) -> u64;
+//@@ SIG file=src/sync/base_cache.rs owner=BaseCache name=hash
+    #[verifier::external_body]
+    pub(crate) fn hash<Q>(&self, key: &Q) -> (r: u64)
+    where Arc<K>: Borrow<Q>, Q: Hash + Eq + ?Sized
+        ensures r == self.sp_hash(key)
+    { unimplemented!() }
+//@@ END
+    /// ASSUMED (DashMap entry API with two closures that capture `&mut`): writes the map and returns the write record for the
+    /// maintenance queue: an `Upsert` for this key and hash carrying the new value, and this call's clock reading
+//@@ SIG file=src/sync/base_cache.rs owner=BaseCache name=do_insert_with_hash
+    #[verifier::external_body]
+    pub(crate) fn do_insert_with_hash(&self, key: Arc<K>, hash: u64, value: V) -> (r: (WriteOp<K, V>, Instant))
+        ensures r.1 == self.inner.sp_now(), Self::is_upsert_of(r.0, kid::<K>(&*key), hash, value),
+    { unimplemented!() }
+//@@ END
+    pub open spec fn is_upsert_of(op: WriteOp<K, V>, k: KeyId, hash: u64, value: V) -> bool {
+        match op {
+            WriteOp::Upsert { key_hash, value_entry, old_weight, new_weight } => kid::<K>(&*key_hash.key) == k && key_hash.hash == hash && value_entry@.value == value,
+            WriteOp::Remove(_) => false,
+        }
+    }
+//@@ SIG file=src/sync/base_cache.rs owner=BaseCache name=apply_reads_writes_if_needed
+    #[verifier::external_body]
+    pub(crate) fn apply_reads_writes_if_needed(inner: &impl InnerSync, ch: &Sender<WriteOp<K, V>>, now: Instant, housekeeper: Option<&Arc<Housekeeper>>) { unimplemented!() }
+//@@ END
+//@@ SIG file=src/sync/base_cache.rs owner=BaseCache name=current_time_from_expiration_clock
+    #[verifier::external_body]
+    pub(crate) fn current_time_from_expiration_clock(&self) -> (r: Instant) ensures r == self.inner.sp_now() { unimplemented!() }
+//@@ END
+
+//@@ FN file=src/sync/base_cache.rs owner=BaseCache name=policy tags=C17
+    pub(crate) fn policy(&self) -> /*@+*/(r:/*@-*/ Policy/*@+*/)/*@-*/
+        ensures r.sp_max_capacity() == self.inner.max_capacity, r.sp_ttl() == self.inner.time_to_live, r.sp_tti() == self.inner.time_to_idle //@ [C17]
+    {
+        self.inner.policy()
+    }
+//@@ END
+
+//@@ FN file=src/sync/base_cache.rs owner=BaseCache name=entry_count tags=C10
+    pub(crate) fn entry_count(&self) -> /*@+*/(r:/*@-*/ u64/*@+*/)/*@-*/
+        ensures r == self.inner.sp_entry_count() //@ [C10]
+    {
+        self.inner.entry_count()
+    }
+//@@ END
+
+//@@ FN file=src/sync/base_cache.rs owner=BaseCache name=weighted_size tags=C10
+    pub(crate) fn weighted_size(&self) -> /*@+*/(r:/*@-*/ u64/*@+*/)/*@-*/
+        ensures r == self.inner.sp_weighted_size() //@ [C10]
+    {
+        self.inner.weighted_size()
+    }
+//@@ END
+
+//@@ FN file=src/sync/base_cache.rs owner=BaseCache name=remove_entry tags=C07,C10
+    pub(crate) fn remove_entry<Q>(&self, key: &Q) -> /*@+*/(r:/*@-*/ Option<KvEntry<K, V>>/*@+*/)/*@-*/
+    where
+        Arc<K>: Borrow<Q>,
+        Q: Hash + Eq + ?Sized,
+        ensures match r { Some(kv) => self.inner.sp_get(kid(key)) == Some(kv.entry) && kid::<K>(&*kv.key) == kid(key), None => self.inner.sp_get(kid(key)).is_none() } //@ [C07,C10,C11]
+    {
+        self.inner.remove_entry(key)
+    }
+//@@ END
+
     /// queues the read record (crossbeam channel: outside). The recorded access time of a hit must be this call's reading (C06).
     #[verifier::external_body]
     fn record_read_op(&self, op: ReadOp<K, V>, now: Instant) -> (r: Result<(), TrySendError<ReadOp<K, V>>>)
@@ -488,6 +651,176 @@ impl<K, V: Clone, S> BaseCache<K, V, S> {
                 }
             }
         }
+    }
+//@@ END
+}
+
+// ---------------- src/sync/cache.rs: the public front end (C01, C07, C10, C17: what each call hands on) ----------------
+//@@ STRUCT file=src/sync/cache.rs name=Cache
+#[verifier::reject_recursive_types(K)]
+#[verifier::reject_recursive_types(V)]
+#[verifier::reject_recursive_types(S)]
+pub struct Cache<K, V, S = RandomState> {
+    base: BaseCache<K, V, S>,
+}
+//@@ END
+impl<K, V, S> Cache<K, V, S> {
+    pub closed spec fn sp_base(&self) -> BaseCache<K, V, S> { self.base }
+
+//@@ FN file=src/sync/cache.rs owner=Cache name=policy tags=C17
+    pub fn policy(&self) -> /*@+*/(r:/*@-*/ Policy/*@+*/)/*@-*/
+        // C17: reports exactly the three knobs stored at construction
+        ensures r.sp_max_capacity() == self.sp_base().inner.max_capacity, r.sp_ttl() == self.sp_base().inner.time_to_live, r.sp_tti() == self.sp_base().inner.time_to_idle //@ [C17]
+    {
+        self.base.policy()
+    }
+//@@ END
+
+//@@ FN file=src/sync/cache.rs owner=Cache name=entry_count tags=C10
+    pub fn entry_count(&self) -> /*@+*/(r:/*@-*/ u64/*@+*/)/*@-*/
+        ensures r == self.sp_base().inner.sp_entry_count() //@ [C10]
+    {
+        self.base.entry_count()
+    }
+//@@ END
+
+//@@ FN file=src/sync/cache.rs owner=Cache name=weighted_size tags=C10
+    pub fn weighted_size(&self) -> /*@+*/(r:/*@-*/ u64/*@+*/)/*@-*/
+        ensures r == self.sp_base().inner.sp_weighted_size() //@ [C10]
+    {
+        self.base.weighted_size()
+    }
+//@@ END
+
+//@@ FN file=src/sync/cache.rs owner=Cache name=contains_key tags=C01,C15
+    pub fn contains_key<Q>(&self, key: &Q) -> /*@+*/(r:/*@-*/ bool/*@+*/)/*@-*/
+    where
+        Arc<K>: Borrow<Q>,
+        Q: Hash + Eq + ?Sized,
+        requires self.sp_base().inner.cfg_ok(), //@
+        ensures r == match self.sp_base().inner.sp_get(kid(key)) { //@ [C01,C03,C05,C06,C07]
+                Some(e) => !sp_hidden(self.sp_base().inner.time_to_live, self.sp_base().inner.time_to_idle, self.sp_base().inner.sp_valid_after(), e, self.sp_base().inner.sp_now()), //@
+                None => false, //@
+            }, //@
+    {
+        self.base.contains_key(key)
+    }
+//@@ END
+
+//@@ FN file=src/sync/cache.rs owner=Cache name=invalidate_all tags=C07
+    pub fn invalidate_all(&self)
+    {
+        self.base.invalidate_all();
+    }
+//@@ END
+
+    /// the busy-wait of `schedule_write_op` has no variant (C09 is not applicable): termination unchecked for this function
+//@@ FN file=src/sync/cache.rs owner=Cache name=schedule_write_op tags=C10,C07,C01
+    #[verifier::exec_allows_no_decreases_clause] //@
+    fn schedule_write_op(
+        inner: &impl InnerSync,
+        ch: &Sender<WriteOp<K, V>>,
+        op: WriteOp<K, V>,
+        now: Instant,
+        housekeeper: Option<&Arc<Housekeeper>>,
+    ) -> /*@+*/(r:/*@-*/ Result<(), TrySendError<WriteOp<K, V>>>/*@+*/)/*@-*/
+        // C10 / C07 / C01: when the call returns, exactly the record it was given is in the maintenance queue
+        ensures r.is_ok(), ch.sp_sent(op), //@ [C10,C07,C01,C11]
+    {
+        let mut op = op;
+        let ghost op0 = op; //@
+
+        // NOTES:
+        // - This will block when the channel is full.
+        // - We are doing a busy-loop here. We were originally calling `ch.send(op)?`,
+        //   but we got a notable performance degradation.
+        loop
+            invariant op == op0, //@ [C10,C07,C01]
+            ensures ch.sp_sent(op0), //@ [C10,C07,C01,C11]
+        {
+            BaseCache::<K, V, S>::apply_reads_writes_if_needed(inner, ch, now, housekeeper);
+            match ch.try_send(op) {
+                Ok(()) => break,
+                Err(TrySendError::Full(op1)) => {
+                    op = op1;
+                    std::thread::sleep(Duration::from_micros(WRITE_RETRY_INTERVAL_MICROS));
+                }
+                Err(e @ TrySendError::Disconnected(_)) => return Err(e),
+            }
+        }
+        Ok(())
+    }
+//@@ END
+
+//@@ FN file=src/sync/cache.rs owner=Cache name=insert_with_hash tags=C01,C10
+    pub(crate) fn insert_with_hash(&self, key: Arc<K>, hash: u64, value: V)
+        // C01 / C10: the record queued for maintenance is the `Upsert` of this key, hash and value that the map update produced
+        ensures exists|op: WriteOp<K, V>| #[trigger] self.sp_base().write_op_ch.sp_sent(op) && BaseCache::<K, V, S>::is_upsert_of(op, kid::<K>(&*key), hash, value), //@ [C01,C10,C12]
+    {
+        let (op, now) = self.base.do_insert_with_hash(key, hash, value);
+        let hk = self.base.housekeeper.as_ref();
+        Self::schedule_write_op(
+            self.base.inner.as_ref(),
+            &self.base.write_op_ch,
+            op,
+            now,
+            hk,
+        )
+        .expect("Failed to insert");
+    }
+//@@ END
+
+//@@ FN file=src/sync/cache.rs owner=Cache name=invalidate tags=C07,C10,C11
+    pub fn invalidate<Q>(&self, key: &Q)
+    where
+        Arc<K>: Borrow<Q>,
+        Q: Hash + Eq + ?Sized,
+        // C07 / C10 / C11: an entry taken out of the map is always followed by its `Remove` record, so that maintenance gives
+        // back its share of the counters and its list nodes
+        ensures match self.sp_base().inner.sp_get(kid(key)) { //@ [C07,C10,C11]
+            Some(e) => exists|kv: KvEntry<K, V>| kv.entry == e && #[trigger] self.sp_base().write_op_ch.sp_sent(WriteOp::Remove(kv)), //@
+            None => true, //@
+        }, //@
+    {
+        if let Some(kv) = self.base.remove_entry(key) {
+            let op = WriteOp::Remove(kv);
+            let now = self.base.current_time_from_expiration_clock();
+            let hk = self.base.housekeeper.as_ref();
+            Self::schedule_write_op(
+                self.base.inner.as_ref(),
+                &self.base.write_op_ch,
+                op,
+                now,
+                hk,
+            )
+            .expect("Failed to remove");
+        }
+    }
+//@@ END
+}
+impl<K: Hash + Eq, V: Clone, S> Cache<K, V, S> {
+//@@ FN file=src/sync/cache.rs owner=Cache name=get tags=C01,C06,C14
+    pub fn get<Q>(&self, key: &Q) -> /*@+*/(r:/*@-*/ Option<V>/*@+*/)/*@-*/
+    where
+        Arc<K>: Borrow<Q>,
+        Q: Hash + Eq + ?Sized,
+        requires self.sp_base().inner.cfg_ok(), //@
+        ensures r.is_some() == match self.sp_base().inner.sp_get(kid(key)) { //@ [C01,C03,C05,C06,C07]
+                Some(e) => !sp_hidden(self.sp_base().inner.time_to_live, self.sp_base().inner.time_to_idle, self.sp_base().inner.sp_valid_after(), e, self.sp_base().inner.sp_now()), //@
+                None => false, //@
+            }, //@
+    {
+        self.base.get_with_hash(key, self.base.hash(key))
+    }
+//@@ END
+
+//@@ FN file=src/sync/cache.rs owner=Cache name=insert tags=C01,C10
+    pub fn insert(&self, key: K, value: V)
+        ensures exists|op: WriteOp<K, V>| #[trigger] self.sp_base().write_op_ch.sp_sent(op) && BaseCache::<K, V, S>::is_upsert_of(op, kid::<K>(&key), self.sp_base().sp_hash(&key), value), //@ [C01,C10,C14]
+    {
+        let hash = self.base.hash(&key);
+        let key = Arc::new(key);
+        self.insert_with_hash(key, hash, value)
     }
 //@@ END
 }
